@@ -228,9 +228,13 @@ theorem decTime_enc {secs : Int} (hv : timeValid secs = true) (hi : inI64 secs =
   simp [hv]
 
 theorem timeValid_inI64 {secs : Int} (h : timeValid secs = true) : inI64 secs = true := by
-  simp [timeValid, tsMin, tsMax] at h
-  simp only [inI64, Bool.and_eq_true, decide_eq_true_eq]
-  omega
+  unfold timeValid tsMin tsMax at h
+  rw [Bool.and_eq_true] at h
+  have h1 := of_decide_eq_true h.1
+  have h2 := of_decide_eq_true h.2
+  unfold inI64
+  rw [Bool.and_eq_true]
+  exact ⟨decide_eq_true (by omega), decide_eq_true (by omega)⟩
 
 theorem decUri_append (P : Params) (valid : Bytes → Bool) (u rest : Bytes) (h : valid u = true) :
     (decUri P valid u.length (u ++ rest)).res = .ok (u, rest) := by
@@ -257,8 +261,8 @@ theorem decMapLoop_enc (l : List (Nat × Bytes)) (acc : List (Nat × Bytes)) (re
       have : l.any (fun e => e.1 == k) = false := hnot
       rw [List.any_eq_false] at this
       have h2 := this e he
-      simp only [beq_iff_eq] at h2 ⊢
-      exact fun hc => h2 (Eq.symm hc)
+      simp only [beq_iff_eq] at h2
+      exact beq_eq_false_iff_ne.mpr (fun hc => h2 (Eq.symm hc))
     obtain ⟨bs, hbs, hdec⟩ := ih ((k, h) :: acc) hrest hdis'
     refine ⟨beBytes 8 k ++ h ++ bs, ?_, ?_⟩
     · simp [encPairs, encLen, pow_256_8, hk, hbs]
